@@ -373,6 +373,16 @@ def _gen_failing_step(rng, sim, named):
     v = sim.version
     if rng.random() < PROBE_RATE:
         return _gen_probe_step(rng, sim, named)
+    if v == "gfa1" and rng.random() < 0.12:
+        # a link which mirrors a stored containment (its segments swapped, both orientations inverted,
+        # the overlap complemented) and carries its identifier: not the complement of a link, a clash
+        cs = [x for x in sim.recs if x.rt == "C" and x.tag("ID")]
+        if cs:
+            x = rng.choice(cs)
+            f, fo, t, to, pos, ov = x.pos[:6]
+            return {"op": "add", "line": "L\t%s\t%s\t%s\t%s\t%s\tID:Z:%s" % (t, S.inv(to), f, S.inv(fo),
+                                                                          S.cigar_complement(ov) if ov != "*" else ov, x.tag("ID")[1]),
+                    "as": rng.choice(["str", "line"])}
     if v == "gfa1" and named and rng.random() < 0.25:
         # a link which takes the place of the placeholder link of a path (the path arrived first), and
         # which carries an identifier that is in use
